@@ -74,10 +74,9 @@ structure Rel (r : Ribbon) (s : Spec) : Prop where
 theorem nat_min_eq (a b : Nat) : Nat.min a b = min a b := rfl
 theorem nat_max_eq (a b : Nat) : Nat.max a b = max a b := rfl
 
-theorem ring_write_capacity (g : Ring) (x : F32) : (g.write x).capacity = g.capacity := by
-  unfold Ring.write Ring.capacity
-  dsimp only
-  split <;> simp [List.length_set]
+theorem ring_write_capacity (g : HistBuf) (x : F32) : (g.write x).capacity = g.capacity := by
+  unfold HistBuf.write HistBuf.capacity
+  split <;> rfl
 
 /-- closed form of an in-range `poll` -/
 private theorem poll_in (r : Ribbon) (x : F32) (hin : lt x r.boundary = true) (hd : r.discard ≤ r.buff.capacity) :
@@ -207,7 +206,7 @@ theorem rel_new {cap : Nat} {sr sp dr pu : F32} {r : Ribbon} (h : Ribbon.new cap
   split at h
   · simp only [Option.some.injEq] at h
     subst h
-    constructor <;> simp_all [Ring.new, Ring.capacity, pressLen]
+    constructor <;> simp_all [HistBuf.new, HistBuf.capacity, pressLen]
     omega
   · simp at h
 
